@@ -13,7 +13,7 @@ REV = {"hasAuthor": ("Doc", "author"), "hasDocVersion": ("Doc", "version"), "has
        "hasDefinition": (None, "definition"), "hasReference": (None, "reference"), "hasUnit": ("Prop", "unit"), "hasDtype": ("Prop", "dtype"),
        "hasValueOrigin": ("Prop", "value_origin"), "hasUncertainty": ("Prop", "uncertainty"), "hasDate": ("Doc", "date")}
 VAR = {"d": "Doc", "s": "Sec", "p": "Prop"}
-QATTRS = {"doc": ("author", "version"), "sec": ("name", "type", "definition", "reference"), "prop": ("name", "unit", "dtype", "definition", "reference")}
+QATTRS = {"doc": ("author", "version"), "sec": ("name", "type", "definition", "reference"), "prop": ("name", "unit", "dtype", "definition", "reference", "value_origin")}
 _WORLDS = None
 
 
@@ -26,17 +26,17 @@ def worlds():
     d1 = odml.Document(author="alice", version="v1")
     s1 = odml.Section(name="a", type="t", definition="def one", parent=d1)
     odml.Property(name="a", dtype="int", values=[1], unit="mV", parent=s1)
-    odml.Property(name="b", dtype="string", values=["x"], parent=s1)
-    s2 = odml.Section(name="b", type="u", parent=d1)
+    odml.Property(name="b", dtype="string", values=["x"], value_origin="orig.dat", definition="def one", parent=s1)
+    s2 = odml.Section(name="b", type="u", definition="one", reference="ref1", parent=d1)
     odml.Property(name="a", dtype="string", values=["y"], unit="mV", parent=s2)
     s3 = odml.Section(name="b", type="t", parent=s1)
     odml.Property(name="a", dtype="int", values=[2], parent=s3)
-    odml.Property(name="zz", dtype="int", values=[3], unit="mV", parent=s3)
+    odml.Property(name="zz", dtype="int", values=[3], unit="mV", value_origin="orig.dat", parent=s3)
     out.append([d1])
     # world 2: two documents
     d2 = odml.Document(author="zz", version="v1")
     t1 = odml.Section(name="a", type="u", definition="def one", parent=d2)
-    odml.Property(name="zz", dtype="string", values=["q"], parent=t1)
+    odml.Property(name="zz", dtype="string", values=["q"], value_origin="other.dat", definition="one", parent=t1)
     t2 = odml.Section(name="t", type="t", parent=d2)          # a name that is also a type elsewhere
     odml.Property(name="a", dtype="int", values=[5], unit="mV", parent=t2)
     d3 = odml.Document(author="alice")
